@@ -78,8 +78,15 @@ func VerifHarness_C13_big_truncate() {
 	s.fs.put(fileName(0), append([]byte(nil), data...))
 	err := create(s.fs, scnIndex, s.paths, CreateOptions{SliceByteCount: 8192, NumParityShards: 1, NumGoroutines: 1})
 	rt.Assert(err == nil, "Create succeeds on the scenario")
-	cut := []int{0, 1, 8191, 8192, 16383, 16384, 16385, 16387}[rt.Choice("cut", 8)]
-	s.fs.put(fileName(0), append([]byte(nil), data[:cut]...))
+	if rt.Bool("sameLength") {
+		// damage in place, before / at / after the 16 KiB prefix
+		d := append([]byte(nil), data...)
+		d[[]int{0, 16383, 16384, 16387}[rt.Choice("at", 4)]] ^= 0x40
+		s.fs.put(fileName(0), d)
+	} else {
+		cut := []int{0, 1, 8191, 8192, 16383, 16384, 16385, 16387}[rt.Choice("cut", 8)]
+		s.fs.put(fileName(0), append([]byte(nil), data[:cut]...))
+	}
 	robustOps(s, true)
 }
 
